@@ -1,2 +1,153 @@
+(* Proofs/SvgGen.v -- the functions translated from crates/anstyle-svg/src/lib.rs
+   (Generated/SvgFn.v, tools/gen_fn_svg.py) are extensionally equal to the hand model
+   Model/Svg.v the theorems of C14 are about. *)
 From Coq Require Import NArith List Bool Lia.
-From AV Require Import Model.Base Model.Svg Generated.SvgFn.
+From AV Require Import Generated.Style Generated.Palette Generated.Svg Spec.Sgr Spec.Lossy Model.Base Model.Imp
+  Model.Parser Model.Wincon Model.Lossy Generated.LossyFn Proofs.LossyGen Generated.WinconFn Proofs.WinconGen
+  Model.Svg Generated.SvgFn.
+Import ListNotations.
+Local Open Scope N_scope.
+
+(* ---- colours ------------------------------------------------------------------ *)
+
+Lemma svg_of_to_color c : svg_of_color (svg_to_color c) = c.
+Proof. destruct c; reflexivity. Qed.
+
+(* rgb_value *)
+Lemma g_svg_rgb_value_eq o c p : g_svg_rgb_value o (svg_to_color c) p = svg_rgb_value c p.
+Proof.
+  unfold g_svg_rgb_value, svg_rgb_value. rewrite g_color_to_rgb_eq.
+  destruct (color_to_rgb (svg_to_color c) p) as [[[r g] b]|]; reflexivity.
+Qed.
+
+(* color_name *)
+Lemma g_svg_color_name_eq o prefix c : g_svg_color_name o prefix (svg_to_color c) = svg_color_name prefix c.
+Proof.
+  destruct c as [a | i | r g b]; unfold g_svg_color_name, svg_color_name; cbn [svg_to_color].
+  - rewrite g_from_ansi_eq. destruct (from_ansi a) as [i|]; [|reflexivity].
+    cbv zeta. rewrite g_a256_index_eq. destruct (aget svg_ansi_names i); reflexivity.
+  - reflexivity.
+  - reflexivity.
+Qed.
+
+(* color_styles: one `if let Some(color) = style.get_*_color() { colors.insert(..) }` *)
+Lemma insert_stage o p prefix (c : option colour) m :
+  match option_map svg_to_color c with
+  | Some color1 =>
+      r <- g_svg_color_name o prefix color1 ;;
+      r1 <- g_svg_rgb_value o color1 p ;;
+      Some (svg_btree_insert m r r1)
+  | None => Some m
+  end = svg_insert_colour p prefix c m.
+Proof.
+  destruct c as [c|]; cbn [option_map svg_insert_colour]; [|reflexivity].
+  rewrite g_svg_color_name_eq, g_svg_rgb_value_eq. reflexivity.
+Qed.
+
+Lemma g_svg_color_styles_eq o styled p : g_svg_color_styles o styled p = svg_color_styles styled p [].
+Proof.
+  unfold g_svg_color_styles. cbv zeta.
+  match goal with |- context [for_list0 ?f _ _] => set (F := f) end.
+  assert (L : forall l m, for_list0 F l m = svg_color_styles l p m).
+  { induction l as [|[s t] l IH]; intros m; cbn [for_list0 svg_color_styles]; [reflexivity|].
+    unfold F at 1. cbv zeta. unfold svg_get_fg, svg_get_bg, svg_get_ul.
+    rewrite (insert_stage o p svg_fg_prefix (s_fg s) m).
+    destruct (svg_insert_colour p svg_fg_prefix (s_fg s) m) as [m1|]; [|reflexivity].
+    rewrite (insert_stage o p svg_bg_prefix (s_bg s) m1).
+    destruct (svg_insert_colour p svg_bg_prefix (s_bg s) m1) as [m2|]; [|reflexivity].
+    rewrite (insert_stage o p svg_underline_prefix (s_ul s) m2).
+    destruct (svg_insert_colour p svg_underline_prefix (s_ul s) m2) as [m3|]; [|reflexivity].
+    apply IH. }
+  rewrite L. destruct (svg_color_styles styled p []); reflexivity.
+Qed.
+
+(* ---- split_lines ---------------------------------------------------------------- *)
+
+Lemma strip_suffix_cr s : opt_unwrap_or (svg_strip_suffix s 13) s = svg_strip_cr s.
+Proof.
+  induction s as [|c r IH]; [reflexivity|].
+  cbn [svg_strip_suffix svg_strip_cr]. destruct r as [|d r'].
+  - destruct (c =? 13); reflexivity.
+  - revert IH. destruct (svg_strip_suffix (d :: r') 13) as [r1|]; cbn [opt_unwrap_or]; intros IH; rewrite <- IH; reflexivity.
+Qed.
+
+Lemma strip_last_eq (cl : list (sstyle * list N)) :
+  match svg_last cl with
+  | Some (w, last) => svg_set_last cl (w, opt_unwrap_or (svg_strip_suffix last 13) last)
+  | None => cl
+  end = svg_strip_last cl.
+Proof.
+  induction cl as [|x r IH]; [reflexivity|].
+  cbn [svg_last svg_set_last svg_strip_last]. destruct r as [|y r'].
+  - destruct x as [w last]. cbn [fst snd]. rewrite strip_suffix_cr. reflexivity.
+  - revert IH. destruct (svg_last (y :: r')) as [[w last]|]; intros IH; rewrite <- IH; reflexivity.
+Qed.
+
+Lemma strip_last_eq_m (cl : list (sstyle * list N)) :
+  match svg_last cl with
+  | Some (w, last) => Some (svg_set_last cl (w, opt_unwrap_or (svg_strip_suffix last 13) last))
+  | None => Some cl
+  end = Some (svg_strip_last cl).
+Proof. rewrite <- strip_last_eq. destruct (svg_last cl) as [[w last]|]; reflexivity. Qed.
+
+Lemma split_once_length c s a b : svg_split_once c s = Some (a, b) -> length s = S (length a + length b).
+Proof.
+  revert a b. induction s as [|x r IH]; intros a b; cbn [svg_split_once]; [discriminate|].
+  destruct (x =? c).
+  - intros H. injection H as <- <-. reflexivity.
+  - destruct (svg_split_once c r) as [[a' b']|]; [|discriminate].
+    intros H. injection H as <- <-. cbn [length]. rewrite (IH a' b' eq_refl). reflexivity.
+Qed.
+
+(* the hand model scans characters; the code cuts at the first newline *)
+Lemma run_loop_split style : forall next cur cl lines,
+  svg_run_loop style next cur cl lines =
+  match svg_split_once 10 next with
+  | None => (lines, cl ++ [(style, cur ++ next)])
+  | Some (a, b) =>
+      svg_run_loop style b [] []
+        (lines ++ [(if svg_is_nil (cur ++ a) then svg_strip_last cl else cl) ++ [(style, svg_strip_cr (cur ++ a))]])
+  end.
+Proof.
+  induction next as [|c r IH]; intros cur cl lines; cbn [svg_run_loop svg_split_once].
+  - rewrite app_nil_r. reflexivity.
+  - destruct (c =? 10).
+    + rewrite app_nil_r. reflexivity.
+    + rewrite IH. destruct (svg_split_once 10 r) as [[a b]|]; rewrite <- app_assoc; reflexivity.
+Qed.
+
+Lemma map_pair_id {A B} (l : list (A * B)) : map (fun '(s1, t1) => (s1, t1)) l = l.
+Proof. induction l as [|[a b] l IH]; cbn [map]; [reflexivity|]. rewrite IH. reflexivity. Qed.
+
+Definition split_fin (st : list (list (sstyle * list N)) * list (sstyle * list N)) : list (list (sstyle * list N)) :=
+  let '(l5, c10) := st in if is_empty c10 then l5 else l5 ++ [c10].
+
+(* split_lines *)
+Lemma g_svg_split_lines_eq o styled : g_svg_split_lines o styled = Some (svg_split_lines styled).
+Proof.
+  unfold g_svg_split_lines, svg_split_lines. cbv zeta. rewrite map_pair_id.
+  match goal with |- context [for_list0 ?f _ _] => set (F := f) end.
+  assert (L : forall l lines cl, option_map split_fin (for_list0 F l (lines, cl)) = Some (svg_split_go l cl lines)).
+  { induction l as [|[s t] l IH]; intros lines cl; cbn [for_list0 svg_split_go].
+    - cbn [option_map split_fin]. destruct cl; reflexivity.
+    - unfold F at 1. cbv zeta.
+      match goal with |- context [while_fuel0 _ ?f _] => set (W := f) end.
+      assert (LW : forall fuel next lines cl, (length next < fuel)%nat ->
+                option_map (fun '(l1, c1, n1) => (l1, c1 ++ [(s, n1)])) (while_fuel0 fuel W (lines, cl, next))
+                = Some (svg_run_loop s next [] cl lines)).
+      { induction fuel as [|fuel IHf]; intros next lines0 cl0 Hlt; [lia|].
+        cbn [while_fuel0]. unfold W at 1. cbv zeta. rewrite run_loop_split. cbn [app].
+        destruct (svg_split_once 10 next) as [[a b]|] eqn:E.
+        - pose proof (split_once_length _ _ _ _ E) as Hl.
+          change (is_empty a) with (svg_is_nil a).
+          destruct (svg_is_nil a).
+          + rewrite strip_last_eq_m. rewrite strip_suffix_cr. apply IHf. lia.
+          + rewrite strip_suffix_cr. apply IHf. lia.
+        - reflexivity. }
+      specialize (LW (S (length t)) t lines cl (le_n _)).
+      destruct (while_fuel0 (S (length t)) W (lines, cl, t)) as [[[l1 c1] n1]|]; cbn [option_map] in LW; [|discriminate].
+      injection LW as LW. rewrite <- LW. apply IH. }
+  specialize (L styled [] []).
+  destruct (for_list0 F styled ([], [])) as [[l5 c10]|]; cbn [option_map split_fin] in L; [|discriminate].
+  injection L as L. rewrite <- L. destruct (is_empty c10); reflexivity.
+Qed.
